@@ -121,7 +121,7 @@ def run(ctx, rep):
     IWN = 'server::streaming::segments::indexes::index_writer::SegmentIndexWriter::new'
     import forms as forms__
     sl = [f for _, f, _ in forms__.call_arg_forms(ctx, IWN, 'set_len', skip_self=True, cd=3)]
-    okt = bool(sl) and all(re.match(r'^phi\{\(\$u64 - \(\$u64 % (16|INDEX_SIZE)\)\) \| Metadata::len\(.*\)\}$', f) for f in sl)
+    okt = bool(sl) and all(f in ('($u64 - ($u64 % 16))', '($u64 - ($u64 % INDEX_SIZE))') for f in sl)
     rep.ob('R04.i', IWN, 'index truncated to a multiple of the entry size', okt, None, 'set_len(%s)' % sl[0][:80] if okt else 'the index file is not cut back to size - size %% INDEX_SIZE when it is opened for appending (set_len: %s)' % (sl or 'no call'))
     st = [f for _, f, _ in forms__.call_arg_forms(ctx, IWN, 'Atomic::store', skip_self=False, cd=3) if f.startswith('index_size_bytes')]
     oks = bool(st) and all(('% 16' in f or '% INDEX_SIZE' in f) for f in st)
